@@ -208,6 +208,29 @@ pub fn run(cfg: &Cfg) -> Report {
             check_case("str::substring", t_sub, &arg2, unit, &mut stats);
         }
     }
+    // character classes: every Unicode White_Space code point, look-alikes that are not whitespace, and
+    // characters whose case mapping changes length or depends on position, at the start, the end, both
+    // ends and the interior of a short string, through every string builtin
+    {
+        let tree = |n: &str| trees.iter().find(|t| t.0 == n).unwrap().1.clone();
+        let fns: Vec<(&str, ENode)> = ["str::trim", "str::to_uppercase", "str::to_lowercase", "len", "str::from", "typeof"].iter().map(|n| (*n, tree(n))).collect();
+        let t_sub = tree("str::substring");
+        let mut chars: Vec<char> = (0..=0x3000u32).filter_map(char::from_u32).filter(|c| c.is_whitespace()).collect();
+        chars.extend(['\u{200b}', '\u{feff}', '\u{180e}', '\u{1c}', '\u{7f}', 'İ', 'ı', 'ß', 'ǅ', 'ſ', 'Σ', 'σ', 'ς', 'ŉ', '\u{301}', 'ﬁ', '𐐀', '😀']);
+        for c in chars {
+            for text in [format!("{c}"), format!("{c}a"), format!("a{c}"), format!("{c}a{c}"), format!("a{c}b"), format!("{c}{c}a b{c}"), format!("A{c}"), format!("{c} a \t")] {
+                let sv = RV::Str(text.clone());
+                for (n, t) in &fns {
+                    check_case(n, t, &sv, unit, &mut stats);
+                }
+                let l = unit_len(&text, unit) as i64;
+                for i in 0..=l {
+                    check_case("str::substring", &t_sub, &RV::Tuple(vec![sv.clone(), RV::Int(i)]), unit, &mut stats);
+                }
+                stats.count("character-class-strings");
+            }
+        }
+    }
     // scaling families: long tuples and long strings
     {
         let tree = |n: &str| trees.iter().find(|t| t.0 == n).unwrap().1.clone();
@@ -282,7 +305,7 @@ fn report(_cfg: &Cfg, stats: Stats, nargs: usize, unit: Unit) -> Report {
     Report {
         property: ID,
         level: "exploration",
-        rule: format!("complete matrix: 49 builtin names x {nargs} argument values (Empty; each pool value; every ordered pair of pool values as a 2-tuple; every ordered triple of a sub-pool as a 3-tuple), called as `f(x)` with x bound; plus every index pair (-1..=len+1)^2 of str::substring on four non-ASCII subjects with the len/substring consistency oracle; plus scaling families (min/max with the extreme at every position of n-tuples, contains/contains_any with the needle at every position, len/str::from/typeof of n-tuples, the str:: functions on strings of n characters, n in 1..20 and up to 129 / 1..40 and up to 400); a case is non-trivial when the reference yields a value (not an error, not unclaimed); each (name, argument) pair is enumerated once"),
+        rule: format!("complete matrix: 49 builtin names x {nargs} argument values (Empty; each pool value; every ordered pair of pool values as a 2-tuple; every ordered triple of a sub-pool as a 3-tuple), called as `f(x)` with x bound; plus every index pair (-1..=len+1)^2 of str::substring on four non-ASCII subjects with the len/substring consistency oracle; plus a character-class family (every Unicode White_Space code point, zero-width and control look-alikes, characters whose case mapping changes length or depends on position, at the start / end / both ends / interior of a short string) through str::trim, to_uppercase, to_lowercase, len, str::from, typeof and str::substring at every index; plus scaling families (min/max with the extreme at every position of n-tuples, contains/contains_any with the needle at every position, len/str::from/typeof of n-tuples, the str:: functions on strings of n characters, n in 1..20 and up to 129 / 1..40 and up to 400); a case is non-trivial when the reference yields a value (not an error, not unclaimed); each (name, argument) pair is enumerated once"),
         nontrivial_set: "counter:nontrivial-distinct",
         exhaustive: true,
         bound_completed: format!("{nargs} argument values x 49 names; indexing unit inferred from len: {:?}", unit),
